@@ -33,7 +33,9 @@
 EXTENDS AdGuardHomeCore, Json
 
 CONSTANTS Scale,      \* 1 = quick universe, 2 = thorough universe
-          MaxAdmin, MaxQuery, MaxLen
+          MaxAdmin, MaxQuery, MaxLen,
+          Fault       \* "none"; anything else breaks the composition on purpose (negative
+                      \* configurations: the invariants must see it)
 
 VARIABLES S, lq, ls, na, nq
 vars == <<S, lq, ls, na, nq>>
@@ -147,6 +149,20 @@ Busy3 == After(S0, <<[k |-> "client_add", c |-> K1d], [k |-> "client_add", c |->
 Bases == IF Scale = 1 THEN {S0} ELSE {S0, Busy1, Busy2, Busy3}
 
 \* ------------------------------------------------------------------ actions
+\* The composition, or -- in the negative configurations -- a deliberately
+\* mis-wired one:
+\*   "log-twice"     the tail stage hands a logged query to the log twice
+\*   "count-denied"  a request excluded by the access lists reaches the statistics
+\*   "prot-stale"    the pipeline sees protection as it was at boot (on)
+ApplyF(s, op) ==
+    CASE Fault = "none" \/ op.k # "query" -> Apply(s, op)
+      [] Fault = "log-twice" ->
+            {[r EXCEPT !.S.log = IF Len(r.S.log) > Len(s.log) THEN Append(@, @[Len(@)]) ELSE @] : r \in Apply(s, op)}
+      [] Fault = "count-denied" ->
+            {[r EXCEPT !.S.st.total = IF r.out.served THEN @ ELSE @ + 1] : r \in Apply(s, op)}
+      [] Fault = "prot-stale" ->
+            {R(Commit(s, op, o), o) : o \in QueryOutcomes([s EXCEPT !.prot = TRUE], op)}
+
 Ledger(s, q, o) == [S |-> [s EXCEPT !.log = <<>>, !.st = NoStats], q |-> q, o |-> o]
 
 \* Vacuity probe (TLC's -coverage cannot be used: its cost model does not
@@ -166,7 +182,7 @@ Probe(op, r) ==
 
 Admin(op) ==
     /\ na < MaxAdmin /\ na + nq < MaxLen
-    /\ \E r \in Apply(S, op) :
+    /\ \E r \in ApplyF(S, op) :
          /\ Probe(op, r)
          /\ S' = r.S
          /\ lq' = IF op.k = "qlog_clear" THEN <<>> ELSE lq
@@ -175,7 +191,7 @@ Admin(op) ==
 
 Query(q) ==
     /\ nq < MaxQuery /\ na + nq < MaxLen
-    /\ \E r \in Apply(S, q) :
+    /\ \E r \in ApplyF(S, q) :
          /\ Probe(q, r)
          /\ S' = r.S
          /\ lq' = Append(lq, Ledger(S, q, r.out))
@@ -289,7 +305,7 @@ HostDenied(q) == AC!Pat("domain", q.name) \in S.acc.hosts
 \* reached by admin calls alone, so it is enough to look when nq = 0.)
 EffectOfSettings ==
     nq = 0 => \A q \in Queries :
-        LET os == QueryOutcomes(S, q) IN
+        LET os == {r.out : r \in ApplyF(S, q)} IN
         /\ Cardinality(os) = 1              \* the universe has no point where the documentation is silent
         /\ Cardinality(AttrNow(q)) <= 1     \* at most one client (C04)
         /\ \A o \in os :
